@@ -46,7 +46,7 @@ func c16Gen(r *gen.Rng, tier string, idx int) interface{} {
 		switch kind {
 		case "C01big":
 			t.Prop = "C01"
-			t.Idx = c01ExhTotal("quick") + c01Counts["quick"][1] + r.Intn(100)
+			t.Idx = c01ExhTotal("quick") + c01Counts["quick"][1] + r.Intn(400)
 		case "C01tt":
 			t.Prop = "C01"
 			t.Idx = c01ExhTotal("quick") + r.Intn(1000)
